@@ -120,7 +120,14 @@ class CallTreeTransformer(converter.Base):
       return node
 
   def visit_With(self, node):
-    # Context manager calls (in node.items) are not converted.
+    # Context manager calls (in node.items) are not converted. The calls in
+    # their arguments are ordinary calls, though.
+    for item in node.items:
+      context_call = item.context_expr
+      if isinstance(context_call, ast.Call):
+        context_call.args = [self.visit(a) for a in context_call.args]
+        for kw in context_call.keywords:
+          kw.value = self.visit(kw.value)
     node.body = self.visit_block(node.body)
     return node
 
